@@ -44,7 +44,7 @@ PROPS = {
         ],
         "trusted_base": [STDLIB, FSMODEL, "tar.Writer rounds ModTime to the nearest second under FormatUnknown (modelled as roundSec); PAX/USTAR encodings of long and non-ASCII names are exercised but not modelled below the entry level"],
         "assumptions": ["trees of regular files, directories and relative links that stay inside the tree without re-entering it by its own name (F37); special files are skipped; the round-trip oracle is applied without ignore rules and without dereferencing"],
-        "explanation": "The round trip is the composition of the Pack model and the Unpack model through the entry list: C20_meta / C05_bodies_from_fs / C05_link_entries_validated characterise what Pack emits (names, bodies, validated links), C15 theorems what Unpack makes of an entry list (C15_refines_partial when present: the destination is exactly the sequential reading), C16_spelling that the entry list does not depend on how the source is spelled. No single composed theorem is proved; the end-to-end statement is decided on every run by the 'pack' lane: real Pack -> real Unpack into an empty directory -> recursive comparison of relative paths, types, contents, permission bits, link targets and mtimes rounded to the second (incl. empty and read-only directories, mode 0000 files, .4/.5/.6 s fractions), next to the model comparison of both halves.",
+        "explanation": "Props/C02f (ignore processing ON): C02_roundtrip_filtered_partial and C02_roundtrip_kept_files (Pack with rules then Unpack into an empty directory: every file, link and directory whose own path the rules keep and no pruned directory hides is reproduced with content/target, mode and rounded mtime; paths above a kept entry whose own directory entry was excluded come back as implicit directories 0755/unpack time — C02_cex_excluded_dir_implicit; everything else is absent), C02_untar_filter, C02_pack_untar_filtered. The round trip is the composition of the Pack model and the Unpack model through the entry list: C20_meta / C05_bodies_from_fs / C05_link_entries_validated characterise what Pack emits (names, bodies, validated links), C15 theorems what Unpack makes of an entry list (C15_refines_partial when present: the destination is exactly the sequential reading), C16_spelling that the entry list does not depend on how the source is spelled. No single composed theorem is proved; the end-to-end statement is decided on every run by the 'pack' lane: real Pack -> real Unpack into an empty directory -> recursive comparison of relative paths, types, contents, permission bits, link targets and mtimes rounded to the second (incl. empty and read-only directories, mode 0000 files, .4/.5/.6 s fractions), next to the model comparison of both halves.",
     },
     "C05": {
         "lanes": [
@@ -106,7 +106,7 @@ PROPS = {
         ],
         "trusted_base": [BUILDERMODEL, FSMODEL, "encoding/json as an identity on the manifest structure; the archive round trip is Pack(dereference) followed by Unpack, whose models are tied by the pack/unpack lanes (C02, C15); ChecksumV1 is a function of the manifest bytes, which the lane compares"],
         "assumptions": ["metadata strings are valid UTF-8 (JSON replaces invalid bytes); a commit message stored with an empty commit id is not kept (C09_cex_meta_dropped: the manifest keeps metadata only with a commit id)"],
-        "explanation": "C09_reopen_partial / C09_reopen_tables_partial: opening the manifest written from the builder's final tables yields exactly those tables (package -> directory, metadata with a commit id, resolved versions -> source address, deprecations), for parsers that read printed keys back (C06) and distinct keys (each package is fetched once: C14). Counterexamples C09_cex_meta_dropped, C09_cex_shadowed. Tie: 'bundle-roundtrip' lane re-opens every finished bundle and archives + extracts it elsewhere, comparing all accessors, checksum, root-relative lookups and the recursive tree listing.",
+        "explanation": "Props/C09s (the manifest as actually written, rows sorted): C09_reopen_sorted (for every run, opening manifestSorted of the final state succeeds and reproduces the tables; hypotheses on the environment only), C09_reopen_sorted_partial, C09_openDir_perm (opening is insensitive to row order when keys are distinct; C09_cex_perm_needs_distinct / C09_cex_regs_needs_distinct show the key hypothesis is needed), C09_lookups_same_sorted (all lookups incl. the reverse lookup agree). C09_reopen_partial / C09_reopen_tables_partial: opening the manifest written from the builder's final tables yields exactly those tables (package -> directory, metadata with a commit id, resolved versions -> source address, deprecations), for parsers that read printed keys back (C06) and distinct keys (each package is fetched once: C14). Counterexamples C09_cex_meta_dropped, C09_cex_shadowed. Tie: 'bundle-roundtrip' lane re-opens every finished bundle and archives + extracts it elsewhere, comparing all accessors, checksum, root-relative lookups and the recursive tree listing.",
     },
     "C19": {
         "lanes": [
